@@ -282,3 +282,44 @@ class remove(ContractBase):
         return remove._state(c, lambda k: Or(remove._addressed(c, oa, S, Vs, k), remove._addressed(c, onea, os_, Vs, k), remove._addressed(c, onea, ones, c.done, k)))
     loops = {'for algid in algids': Loop(inv=_inv_a, modifies=['DBI.tables.prime']), 'for svid in svids': Loop(inv=_inv_s, modifies=['DBI.tables.prime']),
              'for vid in vids': Loop(inv=_inv_v, modifies=['DBI.tables.prime'])}
+
+
+# ------------------------------------------------------------------------------------------------ shelve.next
+PK6 = Tup(INT, INT, INT, INT, INT, INT)
+
+
+def _prime_keys_fn(ex, args, kwargs, e):
+    """util.prime_keys(table): the tuples the textual keys denote (eval of each key)"""
+    T = ex.read(args[0])
+    S = ex.fresh('keys', SetOf(PK6))
+    t = z3.Const(ex.path.fresh_name('qt'), PK6.sort())
+    k = z3.Const(ex.path.fresh_name('qk'), STR.sort())
+    parts = lambda kk: PK6.mk(*[part(n, kk) for n in KEYPARTS])
+    comps = [PK6.get(t, '_%d' % i) for i in range(6)]
+    ex.st.qh.append(QHyp([k], Implies(Not(PRIMET.opt.is_none(T[k])), S[parts(k)]), 'prime_keys>'))
+    ex.st.qh.append(QHyp([t], Implies(S[t], Not(PRIMET.opt.is_none(T[pkey(*comps)]))), 'prime_keys<'))
+    return ex.newbox(S, SetOf(PK6, listlike=True))
+
+
+@contract(W, 'dawgie/db/shelve/__init__.py', 'next', props=['C08'])
+class next_(ContractBase):
+    """the next run id is greater than the run id of every stored entry (numerically, whatever the key text looks like)"""
+    params = {}
+    returns = INT
+    modifies = []
+    raises = {'RuntimeError': lambda c: Or(Not(c.old.g('DBI.is_open')), c.old.g('DBI.is_reopened'))}
+    opaque_strings = True
+    externs = {'dawgie.db.shelve.util.prime_keys': Extern(fn=_prime_keys_fn)}
+    assumes = [pkey_axioms]
+    locals = {'known': Bag(INT)}
+
+    def requires(c):
+        k = c.sk('rk', STR)
+        P = c.old.g('DBI.tables.prime')
+        return {'keys-are-printed-tuples': Implies(Not(PRIMET.opt.is_none(P[k])), k == pkey(*[part(n, k) for n in KEYPARTS]))}
+
+    def ensures(c):
+        k = c.sk('k', STR)
+        P = c.old.g('DBI.tables.prime')
+        return {'greater-than-every-stored-run': Implies(Not(PRIMET.opt.is_none(P[k])), c.result > part('run', k)),
+                'first-run-is-1': Implies(P == PRIMET.empty(), c.result == 1)}
